@@ -162,3 +162,23 @@ for _beta in (True, False):
          canaries={"view-same": "r.twice[k] == old(r.twice[k])", "by-one": "implies(k in old(r.vals), r.twice[k] == old(r.twice[k]) + 1)"},
          gen=lambda rng: {"r": {k: rng.randint(0, 3) for k in names(rng)}, "k": rng.choice(["a", "b", "z"])},
          build=lambda d: {"r": M.HReg(dict(d["r"])), "k": d["k"]})
+
+# ---- `obj.field = x` aliases the container (round 4 soundness fix) -------------------------------------------------------------
+cls("HSub", fields={"glyphs": Set(STR)}, repo=H + "HSub")
+
+
+def _mk_sub(d):
+    return {"sub": M.HSub(), "glyphs": set(d["glyphs"]), "extra": d["extra"]}
+
+
+case(H + "store_then_mutate", params={"sub": Ref("HSub"), "glyphs": Set(STR), "extra": STR}, returns=INT, modifies=["HSub.glyphs", "glyphs"],
+     ensures={"grown": "glyphs == old(glyphs) | {extra}", "field": "sub.glyphs == glyphs"},
+     canaries={"untouched": "glyphs == old(glyphs)"},
+     gen=lambda rng: {"glyphs": names(rng), "extra": rng.choice(["a", "z"])}, build=_mk_sub)
+case(H + "store_then_mutate", name="undeclared", params={"sub": Ref("HSub"), "glyphs": Set(STR), "extra": STR}, returns=INT, modifies=["HSub.glyphs"],
+     must_fail=["glyphs-unchanged"],
+     gen=lambda rng: {"glyphs": [], "extra": "a"}, build=_mk_sub, n=2)
+case(H + "store_then_mutate_local", params={"sub": Ref("HSub"), "extra": STR}, returns=Set(STR), modifies=["HSub.glyphs"],
+     ensures={"one": "result == {extra}", "field": "sub.glyphs == result"},
+     canaries={"empty": "len(result) == 0"},
+     gen=lambda rng: {"extra": rng.choice(["a", "z"])}, build=lambda d: {"sub": M.HSub(), "extra": d["extra"]})
